@@ -2,12 +2,13 @@
 # usage: tools/confirm_seeded.sh <id> [--no-suite]
 # Confirms a sub-agent's seeded change in a scratch worktree outside /repo and /verif:
 #  demo passes on the unchanged tree, fails with the patch; the repository's own suite still passes with the patch.
-ID=$1; OUT=${SEEDED_OUT:-/tmp/seeded-out}/$ID; WT=/tmp/cf-$ID
+TOOLS=$(cd "$(dirname "$0")" && pwd)
+ID=$1; OUT=${SEEDED_OUT:-$TOOLS/../seeded}/$ID; WT=/tmp/cf-$ID
 rm -rf $WT; git -C /repo worktree prune; git -C /repo worktree add -q --detach $WT HEAD || exit 3
-/tmp/buildtools/build_ext.sh $WT >/dev/null 2>&1 || { echo "$ID: baseline build failed"; exit 3; }
+$TOOLS/build_ext.sh $WT >/dev/null 2>&1 || { echo "$ID: baseline build failed"; exit 3; }
 ( cd $WT && timeout 600 /venv/bin/python $OUT/demo.py >/tmp/cf-$ID.base.log 2>&1 ); base=$?
 ( cd $WT && git apply $OUT/patch.diff ) || { echo "$ID: patch does not apply"; git -C /repo worktree remove --force $WT; exit 3; }
-if git -C $WT diff --name-only | grep -qE '\.(cpp|h)$'; then /tmp/buildtools/build_ext.sh $WT >/dev/null 2>&1 || { echo "$ID: patched build failed"; git -C /repo worktree remove --force $WT; exit 3; }; fi
+if git -C $WT diff --name-only | grep -qE '\.(cpp|h)$'; then $TOOLS/build_ext.sh $WT >/dev/null 2>&1 || { echo "$ID: patched build failed"; git -C /repo worktree remove --force $WT; exit 3; }; fi
 ( cd $WT && timeout 600 /venv/bin/python $OUT/demo.py >/tmp/cf-$ID.mut.log 2>&1 ); mut=$?
 suite="skipped"
 if [ "$2" != "--no-suite" ]; then
